@@ -157,9 +157,30 @@ def r1(prog: Program, chk: Check) -> None:
         if isinstance(st, ast.Assign) and isinstance(st.value, ast.Call) \
                 and call_name(st.value) == "_row_degeneracy":
             t = dotted(st.targets[0]) or ""
-            keys = sorted({(dotted(x) or "").split(".")[-1].lstrip("_")
-                           for x in ast.walk(st.value.args[0]) if dotted(x)
-                           and "coupling" in (dotted(x) or "")})
+            # key columns by what they are made from (commutator / anticommutator eigenvalues),
+            # through locals and the attributes they are stored in
+            du_b = DefUse(bi, CFG(bi.node, exc_edges=False))
+            stored = {dotted(s_.targets[0]): s_.value for s_ in walk_local(bi.node)
+                      if isinstance(s_, ast.Assign) and (dotted(s_.targets[0]) or "").startswith("self.")}
+
+            def made_from(e, at, depth=0):
+                for c_ in ast.walk(e):
+                    if isinstance(c_, ast.Call) and call_name(c_) in ("commutator", "acommutator"):
+                        return "coupling_comm" if call_name(c_) == "commutator" else "coupling_acomm"
+                if depth > 4:
+                    return None
+                if isinstance(e, ast.Name):
+                    d_ = du_b.unique_value(at, e.id)
+                    if d_ is not None and d_.value is not None and not d_.sel:
+                        return made_from(d_.value, d_.node, depth + 1)
+                if isinstance(e, ast.Attribute) and dotted(e) in stored:
+                    return made_from(stored[dotted(e)], at, depth + 1)
+                if isinstance(e, (ast.Attribute, ast.Call, ast.Subscript)):
+                    inner = e.value if isinstance(e, (ast.Attribute, ast.Subscript)) else e.func
+                    return made_from(inner, at, depth + 1)
+                return None
+            elts_ = st.value.args[0].elts if isinstance(st.value.args[0], (ast.List, ast.Tuple)) else [st.value.args[0]]
+            keys = sorted({k for k in (made_from(x, du_b.node_of(st)) for x in elts_) if k})
             want = ["coupling_acomm", "coupling_comm"] if "north" in t else ["coupling_comm"]
             chk.add("R1", bi, f"{t} = _row_degeneracy({keys})", keys == want,
                     "" if keys == want else f"expected key columns {want}", st)
